@@ -6,7 +6,9 @@ Import ListNotations.
 Open Scope N_scope.
 
 (* For every left-recursion-free grammar (static hypothesis lr_free: one site per Memoize index and a ranking of indexes and
-   rules that strictly increases along every chain entered before input is certainly consumed), every input and any fuels
+   rules that strictly increases along every chain entered before input is certainly consumed — a rune or literal terminal
+   certainly consumes when term_strict holds, i.e. always except for a user regular expression that can match the empty string),
+   every input and any fuels
    for which both runs finish: the memoised run and the run with every Memoize removed return the same ORDERED result list,
    the same error, and contexts whose furthest recorded error is at the same position. *)
 Theorem C03_transparent :
